@@ -1,10 +1,12 @@
 #!/venv/bin/python
 """Apply every seeded change to a scratch copy of /repo (tools/_parallel.py), run all quick checks, record which rules fire.
-Writes /verif/seeded/<id>/meta.json 'detected_by' and prints a table."""
+Optional arguments: property ids (default: all seeds).  Writes /verif/seeded/<id>/meta.json 'detected_by' and prints a table."""
 import json, os, subprocess, sys, glob, re
 V = '/verif'
 os.chdir(V)
 seeds = sorted(glob.glob(V + '/seeded/*/patch.diff'))
+if len(sys.argv) > 1:          # only the seeds of the named properties
+    seeds = [s_ for s_ in seeds if os.path.basename(os.path.dirname(s_)).split('-')[0] in sys.argv[1:]]
 props = [p for p in json.load(open(V + '/claims.json'))]
 rows = []
 sys.path.insert(0, V + '/tools')
